@@ -232,6 +232,13 @@ def run_check(tier: str, seed: int, workers: Any) -> Dict[str, Any]:
     for v in part_b['violations']:
         v['features'] = dict(v.get('features', {}), part='burst')
     out = runner.merge([part1, part2, part3, part_b])
+    if tier != 'quick':
+        from ._common import add_sequel, sequel_part
+        from ..explore import guarded_part as _gp
+        seq = _gp(lambda: sequel_part('pv.props.c05', 'burst_factory', ((('S', (), 'wait'), ('S', (), 'ret')), None), 3, 1, workers), 900, {'part': 'sequel'})
+        add_sequel(out, seq, 'every burst history of <=3 requests of a first process followed, in the same fresh interpreter, by '
+                             'every burst history of <=2 requests of a second process of the class: observed exactly as after no '
+                             'earlier process')
     from ..explore import guarded_part
     part4 = guarded_part(check_restored_pause, 240, {'part': 'restored-pause'})
     out['violations'].extend(part4['violations'])
@@ -290,6 +297,9 @@ def check_restored_pause() -> Dict[str, Any]:
 
 
 def replay(doc: Dict[str, Any]) -> List[Dict[str, Any]]:
+    if (doc.get('case') or {}).get('part') == 'sequel':
+        from ._common import sequel_part
+        return sequel_part('pv.props.c05', 'burst_factory', ((('S', (), 'wait'), ('S', (), 'ret')), None), 3, 2, 2, only=(doc['case']['first'], doc['case']['second']))['violations']
     if (doc.get('case') or {}).get('part') == 'restored-pause':
         return check_restored_pause()['violations']
     from ..cli import to_tuple
